@@ -626,6 +626,7 @@ pub fn generate(seed: u64, case: u64, max_steps: usize) -> Ran {
     ran.init_obs = w.observe();
     let mut cur = ran.init_obs.clone();
     let nsteps = 1 + r.below(max_steps.min(25) as u64) as usize;
+    let mut pending: Option<Step> = None;
     for _ in 0..nsteps {
         let (mut h, mut t) = (w.height, w.time);
         if r.chance(1, 2) {
@@ -638,6 +639,15 @@ pub fn generate(seed: u64, case: u64, max_steps: usize) -> Ran {
             Some(a) if a < n && r.chance(6, 7) => a,
             _ => any_user,
         };
+        if let Some(st) = pending.take() {
+            let (hok, ok, msgs) = w.call(&st);
+            let obs = w.observe();
+            ran.classes.push(op_class(stake, &st.op, hok, ok, &msgs));
+            ran.trace.steps.push(st);
+            cur = obs.clone();
+            ran.results.push((hok, ok, msgs, obs));
+            continue;
+        }
         let kind = r.below(100);
         let (s, op) = if !stake {
             match kind {
@@ -654,6 +664,10 @@ pub fn generate(seed: u64, case: u64, max_steps: usize) -> Ran {
                     for _ in 0..r.below(3) {
                         let a = if !cur.listing.is_empty() && r.chance(2, 3) { Arg::Id(r.pick(&cur.listing).0) } else { pick_arg(&mut r, n) };
                         remove.push(a);
+                    }
+                    if !remove.is_empty() && r.chance(1, 6) {
+                        let d = remove[0].clone();
+                        remove.push(d); // the same address twice in one removal list
                     }
                     (adm, Op::UpdateMembers { add, remove })
                 }
@@ -682,7 +696,7 @@ pub fn generate(seed: u64, case: u64, max_steps: usize) -> Ran {
             let bal = w.user_balance(&w.pool.addr(staker), &token);
             let tp = tpw.u128().max(1);
             let amount = |r: &mut Rng| -> u128 {
-                let v = match r.below(14) {
+                let v = match r.below(15) {
                     0 => 0,
                     1 => 1,
                     2 => min_bond.u128(),
@@ -694,6 +708,7 @@ pub fn generate(seed: u64, case: u64, max_steps: usize) -> Ran {
                     8 => staked_now,
                     9 => staked_now / 2,
                     10 => staked_now.saturating_add(1),
+                    11 => staked_now.saturating_sub(min_bond.u128().saturating_sub(1)), // leaves min_bond - 1: membership ends, the weight quotient may not move
                     _ => 1 + r.below(120) as u128,
                 };
                 v
@@ -761,6 +776,10 @@ pub fn generate(seed: u64, case: u64, max_steps: usize) -> Ran {
         let (hok, ok, msgs) = w.call(&st);
         let obs = w.observe();
         ran.classes.push(op_class(stake, &st.op, hok, ok, &msgs));
+        // a complete exit: once the whole stake is unbonded, the claim is collected a few blocks later
+        if ok && matches!(st.op, Op::Unbond { .. }) && !obs.staked.iter().any(|x| x.0 == st.s) && r.chance(2, 3) {
+            pending = Some(Step { h: st.h + 4, t: st.t + 4_000_000_000, s: st.s, op: Op::Claim });
+        }
         ran.trace.steps.push(st);
         cur = obs.clone();
         ran.results.push((hok, ok, msgs, obs));
